@@ -12,7 +12,7 @@ use bytes::Bytes;
 use conjure_error::Error;
 use conjure_http::client::{
     AsyncDeserializeResponse, AsyncRequestBody, AsyncSerializeRequest, AsyncService as _, ConjureResponseDeserializer, DeserializeResponse,
-    DisplaySeqEncoder, RequestBody, SerializeRequest, Service as _,
+    DisplaySeqEncoder, EncodeParam, RequestBody, SerializeRequest, Service as _,
 };
 use conjure_http::server::conjure::CollectionResponseSerializer;
 use conjure_http::server::{
@@ -327,7 +327,32 @@ pub trait MRetSrvAsync {
     async fn ret_list(&self) -> Result<Vec<sim_ir::Leaf>, Error>;
 }
 
-/// exists only as macro traits: a multi-segment path parameter, a query key the macro has to escape
+/// A custom parameter encoder that can refuse a value, as hand-written client traits may have:
+/// the call then fails on the client, after part of the URI has been built, and nothing is sent.
+pub enum PickyEncoder {}
+
+/// the values `PickyEncoder` refuses
+pub fn picky_refuses(v: &[i32]) -> bool {
+    v.iter().any(|x| x.rem_euclid(8) == 3)
+}
+
+impl<'a> EncodeParam<&'a [i32]> for PickyEncoder {
+    fn encode(value: &'a [i32]) -> Result<Vec<String>, Error> {
+        if picky_refuses(value) {
+            return Err(Error::internal_safe("value refused by the parameter encoder"));
+        }
+        Ok(value.iter().map(|x| x.to_string()).collect())
+    }
+}
+
+/// True when the client itself has to refuse the call (nothing may be sent).
+pub fn client_refuses(ep: usize, args: &[ArgVal]) -> bool {
+    let m = &ir().eps[ep];
+    m.service == "MacroOnly" && m.name == "segments" && picky_refuses(args[2].get::<Vec<i32>>())
+}
+
+/// exists only as macro traits: a multi-segment path parameter, a query key the macro has to escape,
+/// a query encoder that may refuse
 #[conjure_client(name = "MacroOnly")]
 pub trait MOnly {
     #[endpoint(method = GET, path = "/mo/{head}/raw/{tail}", name = "segments", accept = ConjureResponseDeserializer)]
@@ -335,7 +360,7 @@ pub trait MOnly {
         &self,
         #[path] head: &str,
         #[path(encoder = DisplaySeqEncoder)] tail: &[String],
-        #[query(name = "k&ey", encoder = DisplaySeqEncoder)] q: &[i32],
+        #[query(name = "k&ey", encoder = PickyEncoder)] q: &[i32],
     ) -> Result<String, Error>;
 }
 
@@ -346,7 +371,7 @@ pub trait MOnlyAsync {
         &self,
         #[path] head: &str,
         #[path(encoder = DisplaySeqEncoder)] tail: &[String],
-        #[query(name = "k&ey", encoder = DisplaySeqEncoder)] q: &[i32],
+        #[query(name = "k&ey", encoder = PickyEncoder)] q: &[i32],
     ) -> Result<String, Error>;
 }
 
